@@ -525,7 +525,7 @@ class ExprMixin:
             if isinstance(o, SetObj):
                 return self.set_contains(o, item)
             if isinstance(o, DictObj):
-                return zor(*[self.equals(item, k) for k in o.items])
+                return zor(*[self.equals(item, k.e if isinstance(k, ZKey) else k) for k in o.items])
             if isinstance(o, MapObj):
                 item = self.unopt(item, node)
                 if item is None:
